@@ -3,6 +3,7 @@ package main
 // `govc check <property>`: generate, discharge, triage, write evidence.
 
 import (
+	"regexp"
 	"encoding/json"
 	"flag"
 	"fmt"
@@ -470,6 +471,8 @@ func cmdCheck(args []string) {
 
 // coarseKey: function/kind:label of an obligation name, without the source snippet and the occurrence number; "" for pure
 // run-time safety obligations.
+var inHelper = regexp.MustCompile(`^(/[a-z-]+:)(?:in [\w$]+: )+`)
+
 func coarseKey(name string) string {
 	i := strings.Index(name, "/")
 	for j := i; j >= 0 && j < len(name); {
@@ -490,6 +493,8 @@ func coarseKey(name string) string {
 		return "" // bounds:, slice:, nilderef:, nilmap:, div0:, typeassert:, overflow:, nonnil-arg:, nilinvoke:, path:
 	}
 	rest := name[cut:]
+	// raised inside a helper executed in place ("/pre:in helperName: at-site:..."): the same obligation as before the helper was extracted
+	rest = inHelper.ReplaceAllString(rest, "$1")
 	if p := strings.Index(rest, " @ "); p >= 0 {
 		rest = rest[:p]
 	}
@@ -499,6 +504,9 @@ func coarseKey(name string) string {
 		}
 	}
 	_ = i
+	if strings.Contains(rest, ":auto-") {
+		return "" // automatic index facts of a loop are offered only where the loop has that shape; nothing is lost when they are absent
+	}
 	return name[:cut] + rest
 }
 
